@@ -15,14 +15,18 @@ for d in seeded/*/; do
   id=$(basename $d); prop=${id%%-*}
   if [ -n "$want" ] && ! echo " $want " | grep -q " $prop "; then continue; fi
   [ -f props/$prop.json ] || { echo "$id: no check for $prop (not claimed)"; continue; }
-  if ! git -C /repo apply --check /verif/$d/patch.diff 2>/dev/null; then
+  patch=/verif/$d/patch.diff
+  # a later fix: commit may have rewritten the lines the original change touches;
+  # patch.current.diff is the same change re-made by hand on the current tree
+  if ! git -C /repo apply --check $patch 2>/dev/null && [ -f /verif/$d/patch.current.diff ]; then patch=/verif/$d/patch.current.diff; fi
+  if ! git -C /repo apply --check $patch 2>/dev/null; then
     # the seeded change was written against the pinned tree; a later fix: commit
     # may have rewritten the lines it touches
     echo "$id: patch no longer applies to the current tree (see meta.json)"; continue
   fi
-  git -C /repo apply /verif/$d/patch.diff
+  git -C /repo apply $patch
   out=$(./check $prop quick 2>&1); ex=$?
-  git -C /repo apply -R /verif/$d/patch.diff
+  git -C /repo apply -R $patch
   if [ -n "$(git -C /repo status --porcelain)" ]; then echo "selftest: could not undo $id"; exit 2; fi
   viol=$(echo "$out" | grep -c '^VIOLATION')
   python3 - "$d/meta.json" "$prop" "$ex" "$viol" <<PY
